@@ -531,6 +531,34 @@ pub fn fam_conc(tier: Tier) -> Vec<Config> {
             }
         }
     }
+    // a feature arriving late (lazy parser) while fewer scenarios than the limit are running:
+    // the free slots are filled from it after the next completion
+    for (b, c) in [(Some(Some(3usize)), None), (Some(Some(4)), None), (Some(None), None), (Some(Some(1)), Some(3usize))] {
+        for first in 1..=3usize {
+            for retry in [false, true] {
+                let mut cfg = base(String::new());
+                cfg.feats = vec![
+                    feat((0..first).map(|_| scen(&[], &[M])).collect()),
+                    feat((0..3).map(|_| scen(&[], &[M])).collect()),
+                ];
+                cfg.items = vec![Item::Feat(0), Item::Feat(1)];
+                cfg.lazy = true;
+                cfg.lazy_end = true;
+                cfg.conc_builder = b;
+                cfg.conc_cli = c;
+                cfg.plan.gates = GateMode::Steps;
+                if retry {
+                    cfg.retries_builder = Some(1);
+                    let key = cfg.scen_infos()[0].calls[0].key.clone();
+                    cfg.plan.outcomes.insert(key, vec![Outcome::PanicString, Outcome::Pass]);
+                }
+                cfg.bound = Some(if tier == Tier::Quick { 2 } else { 3 });
+                cfg.max_execs = if tier == Tier::Quick { 3_000 } else { 100_000 };
+                cfg.name = format!("conc/late|b{b:?}|c{c:?}|first{first}|r{}", u8::from(retry));
+                out.push(cfg);
+            }
+        }
+    }
     if tier == Tier::Thorough {
         // default limit 64 observed with 66 trivial scenarios
         let mut cfg = base("conc/default64".into());
@@ -704,6 +732,10 @@ pub fn fam_retry(tier: Tier) -> Vec<Config> {
                             let mut cfg = base(String::new());
                             match src {
                                 "tag" => {
+                                    if (n > 0 || delay) && serial {
+                                        // a look-alike tag before the genuine one is an ordinary tag
+                                        tags.push("retryable".into());
+                                    }
                                     if n > 0 || delay {
                                         tags.push(if delay {
                                             format!("retry({n}).after(5s)")
@@ -1062,7 +1094,8 @@ pub fn fam_verdict(tier: Tier) -> Vec<Config> {
     let mut out = Vec::new();
     let perrs: &[Option<bool>] =
         if tier == Tier::Quick { &[None, Some(false)] } else { &[None, Some(false), Some(true)] };
-    let ffs: &[bool] = if tier == Tier::Quick { &[false] } else { &[false, true] };
+    // (quick: fail-fast together with a parser error only)
+    let ffs: &[bool] = &[false, true];
     for second in [M, StepKind::NoMatch, StepKind::Ambiguous] {
         for allow in ["none", "scenario", "rule", "feature", "feature-of-rule"] {
             if allow != "none" && second != StepKind::NoMatch {
@@ -1075,6 +1108,9 @@ pub fn fam_verdict(tier: Tier) -> Vec<Config> {
                             ffs.iter().flat_map(|f| [(f, false, false), (f, true, false), (f, false, true)])
                         {
                             if lazy && (perr.is_none() || n > 0) {
+                                continue;
+                            }
+                            if *ff && tier == Tier::Quick && (perr.is_none() || n > 0 || swap) {
                                 continue;
                             }
                             // `swap`: the retried scenario sits behind the bystander, so a
@@ -1664,8 +1700,17 @@ pub fn fam_order(tier: Tier) -> Vec<Config> {
                     vec![Outcome::PanicString, Outcome::PanicString, Outcome::Pass],
                 );
                 pol.name = format!("{}|policy", cfg.name);
+                // and with builder fail-fast (set before the type-changing methods) and a final failure
+                let mut ff = cfg.clone();
+                ff.fail_fast_builder = true;
+                ff.retries_builder = None;
+                ff.retry_filter_builder = None;
+                ff.plan.outcomes.clear();
+                ff.plan.outcomes.insert(infos[0].calls[1].key.clone(), vec![Outcome::PanicString]);
+                ff.name = format!("{}|failfast", cfg.name);
                 out.push(cfg);
                 out.push(pol);
+                out.push(ff);
             }
         }
     }
